@@ -28,7 +28,9 @@ CONSTANTS NLocal,            \* number of local writes
           RemoteClock,       \* remote entry id -> Lamport time
           RemoteWriter,      \* remote entry id -> writer (2, 3; the local writer is 1): breaks ties of equal times
           MaxStops,
-          KeepCachedHeads
+          KeepCachedHeads,
+          ReadFirst          \* TRUE (repaired tree): a write reads the cached heads it must keep before it appends its
+                             \* entry; FALSE: after (a Load in between makes a cached head look superseded)
 
 VARIABLES par, clock,        \* entry id -> parents, Lamport time; DOMAIN = entries ever created
           log, lclock,       \* entries of the log in memory, and its Lamport time
@@ -38,10 +40,11 @@ VARIABLES par, clock,        \* entry id -> parents, Lamport time; DOMAIN = entr
           up, loaded,        \* process running; "no" | "part" | "full"
           seen,              \* hashes the replicator of this run has fetched: it does not fetch them again, even
                              \* after a limited load has cut them off the log
+          wpc, wkept,        \* a write in two steps on a store that has not loaded: "idle" | "appended", heads it read
           cut,               \* entries a limited load of this run has cut off the log (see Replicate)
           nloc, stops
 
-vars == <<par, clock, log, lclock, blocks, cacheL, cacheR, acked, up, loaded, seen, cut, nloc, stops>>
+vars == <<par, clock, log, lclock, blocks, cacheL, cacheR, acked, up, loaded, seen, wpc, wkept, cut, nloc, stops>>
 
 LocalId(i) == 100 + i
 Writer(e) == IF e > 100 THEN 1 ELSE RemoteWriter[e]
@@ -65,12 +68,12 @@ Newest(E, n) == {e \in E : Cardinality({f \in E : Before(e, f)}) < n}
 
 Init == /\ par = RemotePar /\ clock = RemoteClock
         /\ log = {} /\ lclock = 0 /\ blocks = {} /\ cacheL = {} /\ cacheR = {}
-        /\ acked = {} /\ up = TRUE /\ loaded = "full" /\ seen = {} /\ cut = {} /\ nloc = 0 /\ stops = 0
+        /\ acked = {} /\ up = TRUE /\ loaded = "full" /\ seen = {} /\ wpc = "idle" /\ wkept = {} /\ cut = {} /\ nloc = 0 /\ stops = 0
 
 Kept(c, lg) == IF KeepCachedHeads THEN c \ lg ELSE {}
 
 \* writes are made through a store that has loaded (C01's assumption: otherwise two entries of one writer carry the same time)
-Write == /\ up /\ loaded # "no" /\ nloc < NLocal
+Write == /\ up /\ loaded # "no" /\ wpc = "idle" /\ nloc < NLocal
          /\ LET e == LocalId(nloc + 1)
                 t == Max0({lclock} \cup {clock[h] : h \in Heads(log)}) + 1 IN
             /\ par' = [x \in DOMAIN par \cup {e} |-> IF x = e THEN Heads(log) ELSE par[x]]
@@ -80,7 +83,27 @@ Write == /\ up /\ loaded # "no" /\ nloc < NLocal
             /\ cacheL' = {e} \cup Kept(cacheL, log')
             /\ acked' = acked \cup {e}
          /\ nloc' = nloc + 1
-         /\ UNCHANGED <<cacheR, up, loaded, seen, cut, stops>>
+         /\ UNCHANGED <<cacheR, up, loaded, seen, wpc, wkept, cut, stops>>
+
+\* a write on a store that has been opened and not loaded yet, at the grain of AddOperation: the entry is appended
+\* (WriteBegin), then "_localHeads" is put (WriteEnd); the owner's Load may run in between
+WriteBegin == /\ up /\ loaded = "no" /\ wpc = "idle" /\ nloc < NLocal
+              /\ LET e == LocalId(nloc + 1)
+                     t == Max0({lclock} \cup {clock[h] : h \in Heads(log)}) + 1 IN
+                 /\ par' = [x \in DOMAIN par \cup {e} |-> IF x = e THEN Heads(log) ELSE par[x]]
+                 /\ clock' = [x \in DOMAIN clock \cup {e} |-> IF x = e THEN t ELSE clock[x]]
+                 /\ lclock' = t
+                 /\ log' = log \cup {e} /\ blocks' = blocks \cup {e}
+              /\ wkept' = (IF ReadFirst THEN Kept(cacheL, log) ELSE {})
+              /\ wpc' = "appended" /\ nloc' = nloc + 1
+              /\ UNCHANGED <<cacheL, cacheR, acked, up, loaded, seen, cut, stops>>
+
+WriteEnd == /\ up /\ wpc = "appended"
+            /\ LET e == LocalId(nloc) IN
+               /\ cacheL' = {e} \cup (IF ReadFirst THEN wkept ELSE Kept(cacheL, log))
+               /\ acked' = acked \cup {e}
+            /\ wpc' = "idle" /\ wkept' = {}
+            /\ UNCHANGED <<par, clock, log, lclock, blocks, cacheR, up, loaded, seen, cut, nloc, stops>>
 
 \* a remote writer's head is announced (or received in a head exchange): everything below it that the log in
 \* memory lacks is fetched and joined
@@ -97,30 +120,31 @@ Replicate(h) ==
        /\ cacheR' = Heads(log') \cup Kept(cacheR, log')
        /\ acked' = acked \cup got
        /\ seen' = seen \cup got
-    /\ UNCHANGED <<par, clock, cacheL, up, loaded, cut, nloc, stops>>
+    /\ UNCHANGED <<par, clock, cacheL, up, loaded, wpc, wkept, cut, nloc, stops>>
 
 LoadFull == /\ up /\ loaded # "full"
             /\ log' = log \cup Recoverable
             /\ lclock' = Max0({lclock} \cup {clock[e] : e \in Recoverable})
             /\ loaded' = "full" /\ cut' = {}
-            /\ UNCHANGED <<par, clock, blocks, cacheL, cacheR, acked, up, seen, nloc, stops>>
+            /\ UNCHANGED <<par, clock, blocks, cacheL, cacheR, acked, up, seen, wpc, wkept, nloc, stops>>
 
 LoadLimited(n) ==
     /\ up /\ n >= 1 /\ n < Cardinality(log \cup Recoverable)
+    /\ wpc = "idle"      \* (a limited load racing a write that started before any load may cut the entry just appended: not modelled)
     /\ log' = Newest(log \cup Recoverable, n)
     /\ lclock' = Max0({lclock} \cup {clock[e] : e \in Recoverable})
     /\ loaded' = "part"
     /\ cut' = (cut \cup log \cup Recoverable) \ log'
-    /\ UNCHANGED <<par, clock, blocks, cacheL, cacheR, acked, up, seen, nloc, stops>>
+    /\ UNCHANGED <<par, clock, blocks, cacheL, cacheR, acked, up, seen, wpc, wkept, nloc, stops>>
 
-Stop == /\ up /\ stops < MaxStops
+Stop == /\ up /\ wpc = "idle" /\ stops < MaxStops
         /\ up' = FALSE /\ log' = {} /\ lclock' = 0 /\ loaded' = "no" /\ seen' = {} /\ cut' = {} /\ stops' = stops + 1
-        /\ UNCHANGED <<par, clock, blocks, cacheL, cacheR, acked, nloc>>
+        /\ UNCHANGED <<par, clock, blocks, cacheL, cacheR, acked, wpc, wkept, nloc>>
 
 Open == /\ ~up /\ up' = TRUE
-        /\ UNCHANGED <<par, clock, log, lclock, blocks, cacheL, cacheR, acked, loaded, seen, cut, nloc, stops>>
+        /\ UNCHANGED <<par, clock, log, lclock, blocks, cacheL, cacheR, acked, loaded, seen, wpc, wkept, cut, nloc, stops>>
 
-Next == \/ Write \/ LoadFull \/ Stop \/ Open
+Next == \/ Write \/ WriteBegin \/ WriteEnd \/ LoadFull \/ Stop \/ Open
         \/ \E h \in RemoteIds : Replicate(h)
         \/ \E n \in 1..3 : LoadLimited(n)
 
